@@ -3,14 +3,39 @@
    Proved for the model: the type text stored for every terminal of the validated file is
    type_to_string of the declared type, in declaration order; every use site of the emitter
    prints that stored text (Emit/Emit.v: terminal enum, fields, Node variants, try_into methods).
-   NOT proved: C13_roundtrip (re-tokenising type_to_string ty gives back the tokens of ty);
-   decided per input by the check: every type position of the real output is re-tokenised and
-   compared with the declaration's token sequence. *)
+   AND the round trip (Ast/TypeText.v), for every type expression of the Kiki type syntax whose
+   identifiers are identifiers (non-empty runs of [A-Za-z0-9_]), nested to any depth:
+     re-tokenising type_to_string ty gives exactly ty_tokens ty —
+   the identifiers, `::`, `<`, `,`, `>`, `()` of the declared type in order, so generic
+   arguments keep their positions and their nesting (C13_type_text_reads_back_as_the_type).
+   The lexer used for reading back is a maximal-munch lexer for Rust type text restricted to
+   these token kinds.
+   NOT proved here: that the declaration's own token sequence in the source is ty_tokens ty
+   (front end: cst_to_ast flattens the left-recursive lists in order); decided per input by the
+   check: every type position of the real output is re-tokenised and compared with the
+   declaration's token sequence. *)
 From Coq Require Import List.
-From Kiki Require Import Base.Ord Base.Chars Data Ast.Validate Emit.Emit Emit.EmitProofs.
+From Kiki Require Import Base.Ord Base.Chars Data Ast.Validate Ast.TypeText Emit.Emit Emit.EmitProofs.
 
 Theorem C13_stored_type_is_the_declared_type : forall d te, validate_terminal_def d = Ok te ->
   map tvr_type (vt_variants te) = map (fun v => type_to_string (tv_type v)) (td_variants d).
 Proof. exact terminal_types_are_type_to_string. Qed.
 
+Theorem C13_type_text_reads_back_as_the_type : forall t, ty_ok t -> lex_ty (type_to_string t) = Some (ty_tokens t).
+Proof. exact type_text_roundtrip. Qed.
+
+(* the hypothesis is satisfiable by a nested generic type with several arguments *)
+Example C13_nested_generic_is_ok :
+  let id := fun s => {| id_name := s2l s; id_pos := 0%N |} in
+  let t := TyComplex [id "a"; id "B"] [TyComplex [id "Vec"] [TyPath [id "u8"]]; TyUnit; TyPath [id "x"; id "Y_1"]] in
+  ty_ok t /\ lex_ty (type_to_string t) = Some (ty_tokens t).
+Proof.
+  cbv zeta. split; [|vm_compute; reflexivity].
+  assert (N : forall s, s <> EmptyString -> forallb ident_char (s2l s) = true -> name_ok (s2l s)).
+  { intros s Hs Hb. split; [destruct s; [contradiction|discriminate]|exact Hb]. }
+  repeat (first [ apply ok_complex | apply ok_path | apply ok_unit | constructor | discriminate
+                | (apply N; [discriminate|vm_compute; reflexivity]) ]).
+Qed.
+
 Print Assumptions C13_stored_type_is_the_declared_type.
+Print Assumptions C13_type_text_reads_back_as_the_type.
